@@ -22,6 +22,79 @@ Definition op_msg (o : op) : option dmsg :=
 Definition op_now (o : op) : Z := match o with ODiscover n _ | ORequest n _ => n | _ => 0%Z end.
 Definition is_request (o : op) : bool := match o with ORequest _ _ => true | _ => false end.
 
+(* the lease time an ACK grants (option 51 of the reply, seconds) *)
+Definition granted_secs (r : reply) : Z :=
+  match opt 51 r with Some b => Z.of_N (N_of_bytes b) | None => 0%Z end.
+
+(* what the server PROMISED (the ACK's lease time) against what it RECORDS (the lease's expiry): after an
+   ACK the binding of that client id is recorded at least until now + granted time *)
+Definition record_covers_grant (t : tstep) : bool :=
+  match op_msg (t_op t), t_reply t with
+  | Some m, Some r =>
+      if is_ack r then
+        match tget (getcid m) (tbl (t_post t)) with
+        | Some l => lstate_eqb (l_state l) SAllocated && (op_now (t_op t) + granted_secs r <=? l_exp l)%Z
+        | None => false
+        end
+      else true
+  | _, _ => true
+  end.
+
+(* ---------------------------------------------------------------- *)
+(* "Still acknowledged" judged by the GRANTED time: a ghost record of the ACKs the clients hold.
+   A grant (client id, address, until) starts with an ACK (until = clock value of the ACK + granted
+   lease time) and ends at [until] or with the client's next message (which either renews it by a new
+   ACK or gives the address up: DISCOVER, DECLINE, RELEASE, a REQUEST that is not ACKed).  The test hook
+   that rewrites a lease's expiry moves a still running grant with it.  Time is the largest clock value seen so far
+   (handlers' now, MinuteTicker's now). *)
+Record grant := mkG { g_cid : cid; g_ip : ip; g_until : Z }.
+
+Definition op_clock (o : op) : option Z :=
+  match o with ODiscover n _ | ORequest n _ | OTick n => Some n | _ => None end.
+
+Definition running_other (clock : Z) (gs : list grant) (k : cid) (x : ip) : bool :=
+  existsb (fun g => negb (g_cid g =? k) && (g_ip g =? x) && (clock <? g_until g)%Z) gs.
+
+Definition ghost_step (clock : Z) (gs : list grant) (t : tstep) : Z * list grant * list string :=
+  let clock' := match op_clock (t_op t) with Some n => Z.max clock n | None => clock end in
+  match t_op t with
+  | OSetExp k te => (clock', map (fun g => if (g_cid g =? k) && (clock' <? g_until g)%Z then mkG k (g_ip g) te else g) gs, [])
+  | _ =>
+      match op_msg (t_op t) with
+      | Some m =>
+          let k := getcid m in
+          let gs1 := filter (fun g => negb (g_cid g =? k)) gs in
+          match t_reply t with
+          | Some r =>
+              (clock',
+               (if is_ack r then mkG k (r_yi r) (op_now (t_op t) + granted_secs r) :: gs1 else gs1),
+               (* no OFFER/ACK of an address another client still holds an unexpired ACK for *)
+               (if is_lease_reply r && running_other clock' gs1 k (r_yi r) then ["granted-elsewhere"] else []))
+          | None => (clock', gs1, [])
+          end
+      | None => (clock', gs, [])
+      end
+  end.
+
+Fixpoint ghost_fails (clock : Z) (gs : list grant) (tr : list tstep) : list (list string) :=
+  match tr with
+  | [] => []
+  | t :: r => let '(clock', gs', f) := ghost_step clock gs t in f :: ghost_fails clock' gs' r
+  end.
+
+(* the grants a restarted handler inherits: the acknowledged leases it restored *)
+Definition grants_of (t : list lease) : list grant :=
+  flat_map (fun l => match l_state l, l_ip l with
+                     | SAllocated, Some x => [mkG (l_cid l) x (l_exp l)]
+                     | _, _ => []
+                     end) t.
+
+Fixpoint zip_fails (a b : list (list string)) : list (list string) :=
+  match a, b with
+  | x :: r, y :: q => List.app x y :: zip_fails r q
+  | _, _ => a
+  end.
+
 (* names of the C11 demands a step fails *)
 Definition c11_fails (c : cfg) (t : tstep) : list string :=
   match op_msg (t_op t), t_reply t with
@@ -40,7 +113,8 @@ Definition c11_fails (c : cfg) (t : tstep) : list string :=
       else []
   | _, _ => []
   end
-  ++ (if uniqb (tbl (t_pre t)) && negb (uniqb (tbl (t_post t))) then ["uniq"] else []).
+  ++ (if uniqb (tbl (t_pre t)) && negb (uniqb (tbl (t_post t))) then ["uniq"] else [])
+  ++ (if record_covers_grant t then [] else ["record-short"]).
 
 (* ---------------------------------------------------------------- *)
 (* Recorded finding classes (known_findings.txt): per failing step, the classes that explain it
@@ -111,3 +185,22 @@ Definition all_nil (fs : list (list string)) : bool :=
 (* Recorded finding classes of C12: none left (c12-prl-router-before-mask repaired by 94e2701,
    c12-expired-lease-acked by 8b460ec). *)
 Definition c12_class (c : cfg) (t : tstep) : list (string * list string) := [].
+
+(* ---------------------------------------------------------------- *)
+(* the observation: per step the reply summary — an ACK followed by ",rec<seconds>": how long from now
+   the server's record of the binding lasts, rounded to the minute — then the lease table *)
+Definition round60 (d : Z) : Z := (((d + 30) / 60) * 60)%Z.
+Definition show_step (t : tstep) : string :=
+  match t_reply t, op_msg (t_op t) with
+  | Some r, Some m =>
+      if is_ack r then
+        show_reply (Some r) ++ ",rec" ++
+        match tget (getcid m) (tbl (t_post t)) with
+        | Some l => dec_of_Z (round60 (l_exp l - op_now (t_op t)))
+        | None => "-"
+        end
+      else show_reply (Some r)
+  | rp, _ => show_reply rp
+  end.
+Definition show_trace (tr : list tstep) (s : dstate) : string :=
+  join " " (map show_step tr) ++ " | " ++ show_table (tbl s).
